@@ -1,6 +1,7 @@
 import DfProps.TieBase
 import DfModel.Link
 import DfModel.Checkpoint
+import DfProps.C01
 
 /-!
 # Tie (C01, C07): `Flow._chain`, `Flow._preprocess_chain` and `checkpoint` **as written in /repo now**
@@ -120,5 +121,203 @@ theorem Tie_chain_dispatch (o : LinkObj) (lt lr dt dr : String) (p : Int) :
                 simp [classify, dispatchTag, exec, evalE, evalArgs, applyFn, builtinOp, opMkTuple, opList, opAttr, opLen, opEq, opGetitem,
                   pyIndexPV, iterOf, PV.lookup, PV.beq, chainExt, Env.get, Env.set, List.lookup, PV.truthy, bind, Except.bind, Except.map,
                   PV.same, PV.sameL, kwPos, Except.toOption, hrow, hrows, hpkg, e1, e2, e3]
+
+/-- the body never completes with the stream unchanged: it either raises or `ds` becomes a step made from the link -/
+theorem Tie_chain_never_skips (o : LinkObj) (lt lr dt dr : String) (p : Int) :
+    (chainBodyRun o (.opaque lt lr) (.opaque dt dr) (.int p)).toOption = Option.none ∨
+    ∃ k, (chainBodyRun o (.opaque lt lr) (.opaque dt dr) (.int p)).toOption = some (.opaque "step" k) := by
+  rw [Tie_chain_dispatch]
+  have ht := Df.Link.C01_dispatch_total o
+  cases h : classify o <;> simp_all [dispatchTag]
+
+/-! ## folding checkpoints into the chain -/
+
+open Df.Ckpt
+
+/-- a flow's links after `_preprocess_chain`: plain links, and checkpoints carrying the chain they stand for -/
+inductive PLink where
+  | step (id : Nat)
+  | cp (name : Nat) (chain : List PLink)
+
+/-- the fold of `Flow._preprocess_chain` with `checkpoint.handle_flow_checkpoint` (a checkpoint without steps of its own) -/
+def foldLinks : List CLink → List PLink → List PLink
+  | [], acc => acc
+  | .step id :: rest, acc => foldLinks rest (acc ++ [.step id])
+  | .cp n :: rest, acc => foldLinks rest [.cp n acc]
+
+mutual
+/-- what running a preprocessed link does, given which checkpoint files exist (`Tie_checkpoint_preprocess`: a checkpoint
+reads its file if it is there, otherwise runs its chain and then writes) -/
+def actions (present : Nat → Bool) : PLink → List Action
+  | .step id => [.exec id]
+  | .cp n chain => if present n then [.read n] else actionsL present chain ++ [.write n]
+def actionsL (present : Nat → Bool) : List PLink → List Action
+  | [] => []
+  | l :: ls => actions present l ++ actionsL present ls
+end
+
+theorem actionsL_append (present : Nat → Bool) (a b : List PLink) :
+    actionsL present (a ++ b) = actionsL present a ++ actionsL present b := by
+  induction a with
+  | nil => simp [actionsL]
+  | cons x xs ih => simp [actionsL, ih, List.append_assoc]
+
+theorem plan_of_fold_aux (present : Nat → Bool) (links : List CLink) : ∀ (pre : List CLink) (acc : List PLink),
+    actionsL present acc = plan present pre.reverse →
+    actionsL present (foldLinks links acc) = plan present (pre ++ links).reverse := by
+  induction links with
+  | nil => intro pre acc h; simpa [foldLinks] using h
+  | cons l rest ih =>
+    intro pre acc h
+    cases l with
+    | step id =>
+      have := ih (pre ++ [.step id]) (acc ++ [.step id])
+        (by simp [actionsL_append, actionsL, actions, h, plan])
+      simpa [foldLinks, List.append_assoc] using this
+    | cp n =>
+      have := ih (pre ++ [.cp n]) [.cp n acc]
+        (by simp only [actionsL, actions, List.append_nil, List.reverse_append, List.reverse_cons, List.reverse_nil, List.nil_append,
+              List.singleton_append, plan, h])
+      simpa [foldLinks, List.append_assoc] using this
+
+/-- the chain `_preprocess_chain` builds, run the way a checkpoint runs its chain, does what `Ckpt.planChain` says -/
+theorem plan_of_fold (present : Nat → Bool) (links : List CLink) :
+    actionsL present (foldLinks links []) = planChain present links := by
+  have := plan_of_fold_aux present links [] [] (by simp [actionsL, plan])
+  simpa [planChain] using this
+
+/-! the objects: a plain link is opaque; a checkpoint is an object with a name and, once `handle_flow_checkpoint` has run, a chain -/
+
+def clinkPV : CLink → PV
+  | .step id => .opaque "link" (toString id)
+  | .cp n => .dict [(.str "__checkpoint__", .int n)]
+
+mutual
+def plinkPV : PLink → PV
+  | .step id => .opaque "link" (toString id)
+  | .cp n chain => .dict [(.str "__checkpoint__", .int n), (.str "chain", .tuple (plinksPV chain))]
+def plinksPV : List PLink → List PV
+  | [] => []
+  | l :: ls => plinkPV l :: plinksPV ls
+end
+
+theorem plinksPV_append (a b : List PLink) : plinksPV (a ++ b) = plinksPV a ++ plinksPV b := by
+  induction a with
+  | nil => simp [plinksPV]
+  | cons x xs ih => simp [plinksPV, ih]
+
+def isCheckpointPV : PV → Bool
+  | .dict ((.str "__checkpoint__", _) :: _) => true
+  | _ => false
+
+/-- the outside world of `_preprocess_chain`: `hasattr` recognises checkpoints; calling a checkpoint's
+`handle_flow_checkpoint` runs the translated method (own steps: none) and returns what it returns, the object carrying
+the `chain` attribute the method assigned -/
+def ppExt : Ext := fun f args =>
+  match f, args with
+  | "hasattr", [l, .str "handle_flow_checkpoint"] => .ok (.bool (isCheckpointPV l))
+  | ".handle_flow_checkpoint", [.dict kvs, acc] => do
+    let env ← callFnEnv noExt Live.Py.checkpoint_handle [.dict kvs, acc, .tuple []]
+    let chain ← env.get "self.chain"
+    let me := PV.dict (kvs ++ [(.str "chain", chain)])
+    let ret ← callFn noExt Live.Py.checkpoint_handle [me, acc, .tuple []]
+    .ok ret
+  | _, _ => .error (.missingExt f)
+
+/-- `handle_flow_checkpoint`: the checkpoint's chain becomes its own steps followed by the links in front of it — a function
+of the arguments alone — and the method returns the one-element list holding the checkpoint -/
+theorem Tie_checkpoint_handle (ext : Ext) (me : PV) (steps parent : List PV) :
+    callFnEnv ext Live.Py.checkpoint_handle [me, .list parent, .tuple steps] = .ok
+      [("self.chain", .tuple (steps ++ parent)), ("self.steps", .tuple steps), ("parent_chain", .list parent), ("self", me)]
+    ∧ callFn ext Live.Py.checkpoint_handle [me, .list parent, .tuple steps] = .ok (.list [me]) := by
+  constructor
+  · unfold callFnEnv Live.Py.checkpoint_handle
+    py_eval
+  · unfold callFn Live.Py.checkpoint_handle
+    py_eval
+
+def ppBody : S :=
+  (.ite (.call (.ext "hasattr") (.cons (.var "link") (.cons (.const (.str "handle_flow_checkpoint")) .nil)))
+    (.assign "checkpoint_links" (.call (.ext ".handle_flow_checkpoint") (.cons (.var "link") (.cons (.var "checkpoint_links") .nil))))
+    (.mut "checkpoint_links" "append" (.cons (.var "link") .nil)))
+
+theorem flow_preprocess_body_is : Live.Py.flow_preprocess.body =
+    (.seq (.assign "checkpoint_links" (.call .mkList .nil))
+      (.seq (.forIn "link" (.var "self.chain") ppBody) (.ret (.var "checkpoint_links")))) := by rfl
+
+theorem pp_loop (links : List CLink) : ∀ (acc : List PLink) (st : St),
+    st.env.lookup "checkpoint_links" = some (.list (plinksPV acc)) →
+    ∃ st', loopFor (exec ppExt ppBody) (bind1 "link") (links.map clinkPV) st = .ok (.next, st') ∧
+      st'.env.lookup "checkpoint_links" = some (.list (plinksPV (foldLinks links acc))) := by
+  induction links with
+  | nil => intro acc st h; exact ⟨st, by simp [loopFor], by simpa [foldLinks] using h⟩
+  | cons l rest ih =>
+    intro acc st h
+    cases l with
+    | step id =>
+      have hstep : exec ppExt ppBody { st with env := ("link", clinkPV (.step id)) :: st.env } =
+          .ok (.next, { st with env := ("checkpoint_links", .list (plinksPV (acc ++ [.step id]))) :: ("link", clinkPV (.step id)) :: st.env }) := by
+        simp [ppBody, exec, evalE, evalArgs, applyFn, ppExt, clinkPV, isCheckpointPV, Env.get, Env.set, List.lookup, PV.truthy, bind,
+          Except.bind, mutate, h, plinksPV_append, plinksPV, plinkPV, show ("checkpoint_links" == "link") = false by decide]
+      obtain ⟨st', h1, h2⟩ := ih (acc ++ [.step id])
+        { st with env := ("checkpoint_links", .list (plinksPV (acc ++ [.step id]))) :: ("link", clinkPV (.step id)) :: st.env }
+        (by simp [List.lookup])
+      refine ⟨st', ?_, by simpa [foldLinks] using h2⟩
+      simp only [List.map_cons, loopFor, bind1, Env.set, bind, Except.bind, hstep]
+      exact h1
+    | cp n =>
+      have hstep : exec ppExt ppBody { st with env := ("link", clinkPV (.cp n)) :: st.env } =
+          .ok (.next, { st with env := ("checkpoint_links", .list (plinksPV [.cp n acc])) :: ("link", clinkPV (.cp n)) :: st.env }) := by
+        have hh := Tie_checkpoint_handle noExt (.dict [(.str "__checkpoint__", .int n)]) [] (plinksPV acc)
+        have hh2 := Tie_checkpoint_handle noExt (.dict [(.str "__checkpoint__", .int n), (.str "chain", .tuple (plinksPV acc))]) [] (plinksPV acc)
+        simp only [List.nil_append] at hh hh2
+        simp [ppBody, exec, evalE, evalArgs, applyFn, ppExt, clinkPV, isCheckpointPV, Env.get, Env.set, List.lookup, PV.truthy, bind,
+          Except.bind, h, hh.1, hh2.2, plinksPV, plinkPV, show ("checkpoint_links" == "link") = false by decide]
+      obtain ⟨st', h1, h2⟩ := ih [.cp n acc]
+        { st with env := ("checkpoint_links", .list (plinksPV [.cp n acc])) :: ("link", clinkPV (.cp n)) :: st.env }
+        (by simp [List.lookup])
+      refine ⟨st', ?_, by simpa [foldLinks] using h2⟩
+      simp only [List.map_cons, loopFor, bind1, Env.set, bind, Except.bind, hstep]
+      exact h1
+
+/-- `Flow._preprocess_chain` on the links of a flow = the fold: plain links are collected in order, a checkpoint replaces
+everything collected so far by itself, carrying what it replaced as its chain -/
+theorem Tie_preprocess_chain (links : List CLink) :
+    callFn ppExt Live.Py.flow_preprocess [.none, .tuple (links.map clinkPV)] = .ok (.list (plinksPV (foldLinks links []))) := by
+  unfold callFn
+  have hp : Live.Py.flow_preprocess.params = ["self", "self.chain"] := by rfl
+  have hg : Live.Py.flow_preprocess.gen = false := by rfl
+  rw [flow_preprocess_body_is, hp, hg]
+  obtain ⟨st', h1, h2⟩ := pp_loop links []
+    { env := [("checkpoint_links", .list []), ("self.chain", .tuple (links.map clinkPV)), ("self", .none)] }
+    (by simp [List.lookup, plinksPV])
+  simp [bindParams, exec, evalE, evalArgs, applyFn, builtinOp, opMkList, Env.get, Env.set, List.lookup, bind, Except.bind, iterLazy, iterOf,
+    Except.map, h1, h2]
+
+/-- the outside world of `checkpoint._preprocess_chain` -/
+def cpExt (exists_ : Bool) : Ext := fun f args =>
+  match f, args with
+  | "os.path.exists", [_] => .ok (.bool exists_)
+  | "print", _ => .ok .none
+  | ".format", _ => .ok (.str "")
+  | "unstream", [file] => .ok (.tuple [.str "unstream", file])
+  | "stream", [file] => .ok (.tuple [.str "stream", file])
+  | "_notify_checkpoint_saved", [name] => .ok (.tuple [.str "notify", name])
+  | "itertools.chain", [a, b] => do
+    let xs ← iterOf a
+    let ys ← iterOf b
+    .ok (.tuple (xs ++ ys))
+  | _, _ => .error (.missingExt f)
+
+/-- a checkpoint decides by the existence of its file alone: present → nothing but `unstream(file)`; absent → its chain,
+then `stream(file)`, then the notification -/
+theorem Tie_checkpoint_preprocess (exists_ : Bool) (me file path name : PV) (chain : List PV) :
+    callFn (cpExt exists_) Live.Py.checkpoint_preprocess [me, file, .tuple chain, path, name] = .ok (.tuple
+      (if exists_ then [.tuple [.str "unstream", file]]
+       else chain ++ [.tuple [.str "stream", file], .tuple [.str "notify", name]])) := by
+  unfold callFn Live.Py.checkpoint_preprocess
+  cases exists_ <;>
+    simp [cpExt, bindParams, exec, evalE, evalArgs, applyFn, builtinOp, opMkTuple, Env.get, Env.set, List.lookup, PV.truthy, bind,
+      Except.bind, iterOf]
 
 end Df.Tie
